@@ -130,6 +130,11 @@ TickFails(e) ==
     \* the update object the director handed in comes back unmodified
     \cup (IF e.updmut THEN {"update_object"} ELSE {})
     \cup (IF ~e.exc /\ e.obs.leaves # leaves' THEN {"leaves"} ELSE {})
+    \* the bystander step (no dependencies, in the layer of the step director, its
+    \* path sorting after it) adds 1 at every other invocation, starting with the
+    \* constructor's step phase: its ordinary update is applied in the phase it is
+    \* computed in, whatever a step earlier in the layer did to the hierarchy
+    \cup (IF ~e.exc /\ e.obs.bys # Bys(now') THEN {"bystander"} ELSE {})
     \cup (IF ~e.exc /\ ~TreeShapeBad(e.obs, tree') /\ SeenBad(e, seen') THEN {"seen"} ELSE {})
     \* the watcher step runs in the layer after the step director: it sees the
     \* hierarchy as it is after the structural update
